@@ -36,9 +36,10 @@ import sys
 import time
 
 # ---- configuration (module constants so that the runner / a test can change them) --------------------------
-HARNESS = '/verif/harness/target/debug/verif-harness'   # built with RUSTFLAGS="--cfg decmathlib_rs_verif"
-COQ_THEORIES = '/verif/coq/theories'                     # logical path DV (compiled .vo files must exist)
-COQ_TABLES = '/verif/coq/tables'                         # TableSpec.v, TableProofs.v
+_ROOT = os.path.dirname(os.path.dirname(os.path.abspath(__file__)))
+HARNESS = os.path.join(_ROOT, 'harness', 'target', 'debug', 'verif-harness')   # built with RUSTFLAGS="--cfg decmathlib_rs_verif"
+COQ_THEORIES = os.path.join(_ROOT, 'coq', 'theories')                     # logical path DV (compiled .vo files must exist)
+COQ_TABLES = os.path.join(_ROOT, 'coq', 'tables')                         # TableSpec.v, TableProofs.v
 REPO_SRC = '/repo/src'                                   # only for check_coverage
 COQC = 'coqc'
 JOBS = 16
